@@ -118,6 +118,20 @@ def _worker_init(curve, modname):
         sys.path.insert(0, REPO_SRC)
     import logging
     logging.disable(logging.CRITICAL)
+    # own the random source BEFORE the library is imported (a module-level or default-argument draw would otherwise
+    # differ between the exploring process and the confirming process); checks that script draws replace these stubs
+    import secrets as _secrets
+    _ctr = [0]
+
+    def _det_bytes(n=32):
+        _ctr[0] += 1
+        out = b""
+        while len(out) < n:
+            out += hashlib.sha256(b"vf-det-%d-%d" % (_ctr[0], len(out))).digest()
+        return out[:n]
+    _secrets.token_bytes = _det_bytes
+    _secrets.randbelow = lambda bound: int.from_bytes(_det_bytes(40), "big") % bound
+    _secrets.randbits = lambda k: int.from_bytes(_det_bytes((k + 7) // 8), "big") >> ((-k) % 8)
     import bits  # noqa
     if not os.path.abspath(bits.__file__).startswith(os.path.abspath(REPO_SRC)):
         raise RuntimeError(f"bits imported from {bits.__file__}, expected under {REPO_SRC}")
